@@ -37,14 +37,14 @@ inductive KS (ρ : Type) where
 
 /-- The order the model is run with, as an explicit dictionary (so that the very same term runs
     at `Float` and is reasoned about over a Mathlib `LinearOrder`). -/
-structure Ord (ρ : Type) where
+structure KSOrd (ρ : Type) where
   lt : ρ → ρ → Bool
   le : ρ → ρ → Bool
   posInf : ρ
   negInf : ρ
 
 /-- binary64 order on non-NaN values. -/
-def floatOrd : Ord Float where
+def floatOrd : KSOrd Float where
   lt a b := decide (a < b)
   le a b := decide (a ≤ b)
   posInf := Float.inf
@@ -63,14 +63,14 @@ inductive Init where
   deriving DecidableEq, Repr
 
 /-- `a <op> b` on Python floats: every comparison with NaN is `False`. -/
-def Cmp.test (o : Ord ρ) : Cmp → KS ρ → KS ρ → Bool
+def Cmp.test (o : KSOrd ρ) : Cmp → KS ρ → KS ρ → Bool
   | .lt, .val x, .val y => o.lt x y
   | .le, .val x, .val y => o.le x y
   | .gt, .val x, .val y => o.lt y x
   | .ge, .val x, .val y => o.le y x
   | _, _, _ => false
 
-def Init.toKS (o : Ord ρ) : Init → KS ρ
+def Init.toKS (o : KSOrd ρ) : Init → KS ρ
   | .posInf => .val o.posInf
   | .negInf => .val o.negInf
 
@@ -79,7 +79,7 @@ def Init.toKS (o : Ord ρ) : Init → KS ρ
 /-- The loop of `select_univariate` from candidate index `i` on, in state
     `(best_ks, best_model) = (bk, bm)`; returns the final state.  A candidate whose
     `get_instance / fit / kstest` raised is `none` and leaves the state unchanged. -/
-def selectLoop (o : Ord ρ) (c : Cmp) : List (Option (KS ρ)) → Nat → KS ρ → Option Nat → KS ρ × Option Nat
+def selectLoop (o : KSOrd ρ) (c : Cmp) : List (Option (KS ρ)) → Nat → KS ρ → Option Nat → KS ρ × Option Nat
   | [], _, bk, bm => (bk, bm)
   | none :: rest, i, bk, bm => selectLoop o c rest (i + 1) bk bm
   | some ks :: rest, i, bk, bm =>
@@ -88,17 +88,17 @@ def selectLoop (o : Ord ρ) (c : Cmp) : List (Option (KS ρ)) → Nat → KS ρ 
 
 /-- `best_model` (as an index into `candidates`) after the loop, for a given comparison and start
     value. -/
-def selectWith (o : Ord ρ) (c : Cmp) (init : Init) (ks : List (Option (KS ρ))) : Option Nat :=
+def selectWith (o : KSOrd ρ) (c : Cmp) (init : Init) (ks : List (Option (KS ρ))) : Option Nat :=
   (selectLoop o c ks 0 (init.toKS o) none).2
 
 /-- The selection as the code runs it today: start at `+inf`, strict `<`. -/
-def selectUnivariate (o : Ord ρ) (ks : List (Option (KS ρ))) : Option Nat :=
+def selectUnivariate (o : KSOrd ρ) (ks : List (Option (KS ρ))) : Option Nat :=
   selectWith o .lt .posInf ks
 
 /-- Acceptor used by the tie: candidate `i` was fitted, its statistic is a number, and no
     candidate's statistic is strictly smaller (NaN is never smaller).  Deliberately silent about
     which of several minimisers is chosen. -/
-def isMinimiser (o : Ord ρ) (ks : List (Option (KS ρ))) (i : Nat) : Bool :=
+def isMinimiser (o : KSOrd ρ) (ks : List (Option (KS ρ))) (i : Nat) : Bool :=
   match ks[i]? with
   | some (some (.val x)) =>
     ks.all fun e => match e with
@@ -108,18 +108,18 @@ def isMinimiser (o : Ord ρ) (ks : List (Option (KS ρ))) (i : Nat) : Bool :=
 
 /-- "No candidate could be selected" is acceptable iff no candidate has a statistic strictly
     below `+inf`. -/
-def noneAcceptable (o : Ord ρ) (ks : List (Option (KS ρ))) : Bool :=
+def noneAcceptable (o : KSOrd ρ) (ks : List (Option (KS ρ))) : Bool :=
   ks.all fun e => match e with
     | some y => !(Cmp.test o .lt y (.val o.posInf))
     | none => true
 
-def accepts (o : Ord ρ) (ks : List (Option (KS ρ))) : Option Nat → Bool
+def accepts (o : KSOrd ρ) (ks : List (Option (KS ρ))) : Option Nat → Bool
   | some i => isMinimiser o ks i
   | none => noneAcceptable o ks
 
 /-- `Univariate.fit`: `self._instance = select_univariate(X, candidates)`; when no candidate was
     selected `get_instance(None)` raises (`AttributeError`) — the error branch. -/
-def univariateFit (o : Ord ρ) (c : Cmp) (init : Init) (ks : List (Option (KS ρ))) : Except Err Nat :=
+def univariateFit (o : KSOrd ρ) (c : Cmp) (init : Init) (ks : List (Option (KS ρ))) : Except Err Nat :=
   match selectWith o c init ks with
   | some i => .ok i
   | none => .error .other
